@@ -465,7 +465,18 @@ pub fn execute_found(sc: &Scenario, acc: &mut Acc, mode: Mode) -> Result<Vec<Fou
                         _ => out.push(Violation::new(prop, "followup_backup_completes", "no_complete_band", "follow-up backup returned Ok without a complete version")),
                     }
                 } else if crashed {
-                    // C14 resume clause
+                    // C14 resume clause: whatever the crash point, every file that is unchanged
+                    // against the stitched basis (which passes over a band that does not open)
+                    // must be taken over, not read and stored again
+                    let reusable = format::expected_reusable_files(&view, &cw.snap);
+                    if stats.unmodified_files < reusable {
+                        out.push(Violation::new(
+                            prop,
+                            "resume_reuses_recorded_entries",
+                            "unchanged_files_stored_again",
+                            format!("{reusable} files are unchanged against the stitched basis with intact blocks, the resumed run took over only {}", stats.unmodified_files),
+                        ));
+                    }
                     let flog = cw.core.log_since(f.call.log_from);
                     for r in flog.iter().filter(|r| r.is_ok_write() && r.path.starts_with("d/")) {
                         if crashed_store.file(&r.path).map(|b| !b.is_empty()).unwrap_or(false) {
